@@ -101,3 +101,30 @@ pub fn sample_cid(row_index: u16, column_index: u16, block_height: u64) -> Resul
 pub fn get_block_container(expected_cid: &Cid, block: &[u8]) -> Result<Vec<u8>, String> {
     super::get_block_container(expected_cid, block).map_err(|e| e.to_string())
 }
+
+/// One long-lived `ShwapMultihasher`, the way bitswap keeps a single instance for the lifetime of
+/// the node: lets a harness feed it a *sequence* of blocks.
+pub struct VerifMultihasher<S>(ShwapMultihasher<S>)
+where
+    S: Store + 'static;
+
+impl<S> VerifMultihasher<S>
+where
+    S: Store + 'static,
+{
+    /// `ShwapMultihasher::new`
+    pub fn new(store: Arc<S>) -> Self {
+        VerifMultihasher(ShwapMultihasher::new(store))
+    }
+
+    /// `Multihasher::hash` on this instance.
+    pub async fn hash_async(&self, multihash_code: u64, input: &[u8]) -> Result<Vec<u8>, HashError> {
+        let mh = Multihasher::<MAX_MH_SIZE>::hash(&self.0, multihash_code, input).await?;
+        Ok(mh.to_bytes())
+    }
+
+    /// Blocking form of [`VerifMultihasher::hash_async`].
+    pub fn hash(&self, multihash_code: u64, input: &[u8]) -> Result<Vec<u8>, HashError> {
+        futures::executor::block_on(self.hash_async(multihash_code, input))
+    }
+}
